@@ -515,7 +515,8 @@ impl Ctx {
                 let done = &done;
                 let merged = &merged;
                 let make_strategy = &make_strategy;
-                sc.spawn(move || {
+                // large stacks: the composed proptest strategies recurse deeply when a value tree is built
+                std::thread::Builder::new().stack_size(256 << 20).spawn_scoped(sc, move || {
                     let mut w = self.new_worker(t, slot);
                     let cfg = Config { cases: per as u32, failure_persistence: None, max_shrink_iters: 4000, max_shrink_time: 0, verbose: 0, rng_algorithm: RngAlgorithm::ChaCha, ..Config::default() };
                     let seed_bytes = mix(self.seed, &[self.prop, prop.name()], t as u64);
@@ -557,7 +558,7 @@ impl Ctx {
                     }
                     merged.lock().unwrap().merge(std::mem::take(&mut w.stats));
                     done.fetch_add(1, Ordering::SeqCst);
-                });
+                }).expect("spawn worker");
             }
             self.watchdog(&slots, &done, threads);
         });
@@ -582,7 +583,8 @@ impl Ctx {
                 let slot = slots[t].clone();
                 let done = &done;
                 let merged = &merged;
-                sc.spawn(move || {
+                // large stacks: the composed proptest strategies recurse deeply when a value tree is built
+                std::thread::Builder::new().stack_size(256 << 20).spawn_scoped(sc, move || {
                     let mut w = self.new_worker(t, slot);
                     let mine = (n + threads - 1 - t) / threads;
                     let sample_every = (mine as u64 / 3).max(1);
@@ -607,7 +609,7 @@ impl Ctx {
                     }
                     merged.lock().unwrap().merge(std::mem::take(&mut w.stats));
                     done.fetch_add(1, Ordering::SeqCst);
-                });
+                }).expect("spawn worker");
             }
             self.watchdog(&slots, &done, threads);
         });
